@@ -1756,6 +1756,31 @@ def root_table(ctx, rule):
             rule.instance({'document': what, 'element': repr(target), ':root': got, 'expected': e_}, key=f'root|{what}|{target!r}', sample_cap=3)
             if got != e_ and bad is None:
                 bad = (what, target, got, e_)
+    # content of an iframe: its top element is a root of its own in HTML documents (HTML parsers, XHTML) only; in any other XML
+    # document an element named iframe - in whatever namespace - is an ordinary element
+    XH = 'http://www.w3.org/1999/xhtml'
+    frames = {
+        'HTML document, iframe content': (dict(is_xml=False, namespace=None), [('html', {'_label': 'root'}, [('body', {}, [('iframe', {}, [('html', {'_label': 'inner'}, [('p', {'_label': 'deep'}, [])])])])])], True),
+        'XHTML document, iframe content': (dict(is_xml=True, namespace=XH), [('html', {'_label': 'root'}, [('body', {}, [('iframe', {}, [('html', {'_label': 'inner'}, [('p', {'_label': 'deep'}, [])])])])])], True),
+        'XML document (root outside the XHTML namespace), XHTML-namespaced iframe element': (
+            dict(is_xml=True, namespace=None), [('data', {'_label': 'root'}, [('iframe', {'_ns': XH}, [('item', {'_label': 'inner'}, [('p', {'_label': 'deep'}, [])])])])], False),
+        'XML document, iframe element without namespace': (
+            dict(is_xml=True, namespace=None), [('data', {'_label': 'root'}, [('iframe', {}, [('item', {'_label': 'inner'}, [('p', {'_label': 'deep'}, [])])])])], False),
+    }
+    for what, (kw, spec, exp) in frames.items():
+        doc, order, labels = build_tree(spec, **kw)
+        me = real_matcher(ctx, labels['root'])
+        stubs = {'css_match.CSSMatch.supports_namespaces': lambda _x=kw['is_xml']: _x, 'util.lower': strict_lower}
+        for target, e_ in ((labels['inner'], exp), (labels['deep'], False), (labels['root'], True)):
+            try:
+                got = bool(call_function(ctx, fnq, [target], {}, stubs, me))
+            except Raised as e:
+                got = f'raises {e.exc_name}'
+            except Unsupported as e:
+                raise AnalysisError(f'match_root: outside the evaluable fragment: {e}')
+            rule.instance({'document': what, 'element': repr(target), ':root': got, 'expected': e_}, key=f'root|{what}|{target!r}', sample_cap=3)
+            if got != e_ and bad is None:
+                bad = (what, target, got, e_)
     rule.obligation(bad is None)
     if bad is not None:
         what, target, got, e_ = bad
@@ -1786,10 +1811,20 @@ def nth_bounded_table(ctx, rule):
         specs.append((a, False, 0))
     bad = None
     n_cases = 0
+    lists['detached element (no parent at all)'] = None
     for lname, kids in lists.items():
-        doc, order, labels = build_tree([('div', {'_label': 'root'}, kids)])
-        parent = labels['root']
-        tags = [c for c in parent.get('contents') if not isinstance(c, TextNode)]
+        if kids is None:
+            # an extract()ed element: it is the only child of nothing, position 1 of 1
+            doc, order, labels = build_tree([('p', {'_label': 'root'}, [('b', {}, [])])])
+            parent = labels['root']
+            parent.set('parent', None)
+            parent.set('previous_sibling', None)
+            parent.set('next_sibling', None)
+            tags = [parent]
+        else:
+            doc, order, labels = build_tree([('div', {'_label': 'root'}, kids)])
+            parent = labels['root']
+            tags = [c for c in parent.get('contents') if not isinstance(c, TextNode)]
         me = matcher_obj(is_xml=False, is_html=True, root=parent)
 
         def match_selectors(el, sel):
@@ -1823,7 +1858,7 @@ def nth_bounded_table(ctx, rule):
                     exp = (pos == a) if not var else any(a * k + b == pos for k in range(0, 12))
                 n_cases += 1
                 if got != exp and bad is None:
-                    bad = (lname, a, var, b, last, mode, el, got, exp, [repr(c) for c in parent.get('contents')])
+                    bad = (lname, a, var, b, last, mode, el, got, exp, [repr(c) for c in (parent.get('contents') if kids is not None else tags)])
         rule.instance({'siblings': lname, 'cases': n_cases}, key=f'nth-bounded|{lname}')
     rule.obligation(bad is None)
     if bad is not None:
@@ -2457,7 +2492,9 @@ def closest_filter_table(ctx, rule):
             ('css_match.CSSMatch.closest', [(L['p'], set(ms), next((n for n in chain if lab(n) in ms), None))
                                             for ms in ((), ('<p>',), ('<inner>',), ('<outer>', '<root>'), ('<p>', '<body>'), ('<root>',), ('<b>', '<sib>', '<span>'))]),
             ('css_match.CSSMatch.filter', [(L['inner'], set(ms), [n for n in (L['p'], L['span']) if lab(n) in ms])
-                                           for ms in ((), ('<p>',), ('<span>',), ('<p>', '<span>', '<b>', '<inner>'), ('<b>',))])):
+                                           for ms in ((), ('<p>',), ('<span>',), ('<p>', '<span>', '<b>', '<inner>'), ('<b>',))]
+             # the document object as the target: its element children (the root element), not the root's children
+             + [(doc, set(ms), [n for n in (L['root'],) if lab(n) in ms]) for ms in (('<root>',), ('<body>',), ('<root>', '<body>'), ())])):
         if not ctx.src.try_func(fnq):
             rule.note(f'{fnq} does not exist on this tree: the entry point is decided by the SoupSieve method table alone')
             continue
@@ -2479,7 +2516,7 @@ def closest_filter_table(ctx, rule):
                 ok = got is exp
             show = (lambda v: v if isinstance(v, str) else ([lab(x) for x in v] if isinstance(v, list) else lab(v)))
             rule.instance({'function': fnq.split('.')[-1], 'target': lab(target), 'match_accepts': sorted(ms), 'result': show(got),
-                           'expected': show(exp), 'ok': ok}, key=f'{fnq}|{sorted(ms)}')
+                           'expected': show(exp), 'ok': ok}, key=f'{fnq}|{lab(target)}|{sorted(ms)}')
             if not ok and bad is None:
                 bad = (fnq, fmod.where(fn), lab(target), sorted(ms), show(got), show(exp))
     rule.obligation(bad is None)
@@ -2626,3 +2663,68 @@ def resolve_compile_sites(ctx):
         inv.regexes.append(Rx(f'css_parser.CSSParser.parse_attribute_selector:const#{i}', p_, fl if fl >= 0 else 0, 'css_parser', where,
                               'instance', site, 'CSSParser.parse_attribute_selector'))
     inv.unresolved = [u for u in inv.unresolved if u not in todo]
+
+
+
+def context_restore_table(ctx, rule):
+    """The per-call matcher is used for many elements: evaluating one element must leave it as it was.  match_selectors is
+    interpreted on HTML-only lists (plain, nested inside one another through match_subselectors, with a passing / failing /
+    un-matchable alternative) in HTML and non-HTML documents; afterwards the matcher's namespace map must be the caller's own
+    object and iframe_restrict what it was, and during the evaluation of an HTML-only list both must be the internal ones."""
+    fnq = 'css_match.CSSMatch.match_selectors'
+    mod, fn = ctx.src.func(fnq)
+    NSMAP = {'x': 'urn:x'}
+    bad = None
+    n = 0
+
+    def sel_obj(passes, inner=None):
+        return Obj(_cls='css_types.Selector', _name='S', tag=Obj(_name='tag', verdict=passes), ids=(), classes=(), attributes=(), nth=(),
+                   selectors=(inner,) if inner is not None else (), relation=Obj(_name='rel', __len__=0, __iter__=[], __bool__=False),
+                   rel_type=None, contains=(), lang=(), flags=0)
+
+    def lst(alts, is_html, is_not=False):
+        return Obj(_cls='css_types.SelectorList', _name='list', selectors=tuple(alts), is_not=is_not, is_html=is_html, __iter__=list(alts),
+                   __len__=len(alts))
+    for doc_html in (True, False):
+        for outer_html in (True, False):
+            for shape in ('plain', 'nested html-only list', 'nested html-only list in :not()', 'null first'):
+                for passes in (True, False):
+                    for restrict0 in (False, True):
+                        me = Obj(_cls='css_match.CSSMatch', _name='self', namespaces=NSMAP, iframe_restrict=restrict0, is_html=doc_html,
+                                 is_xml=not doc_html, scope=None, root=None, tag=None, has_html_namespace=False)
+                        seen = []
+
+                        def match_tag(el, tag, _me=me, _seen=seen):
+                            _seen.append((_me.get('namespaces'), _me.get('iframe_restrict')))
+                            return tag.get('verdict')
+                        inner = None
+                        if shape.startswith('nested'):
+                            inner = lst([sel_obj(passes)], True, is_not='not' in shape)
+                        alts = [sel_obj(passes if inner is None else True, inner)]
+                        if shape == 'null first':
+                            alts = [Obj(_cls='css_types.SelectorNull', _name='Null')] + alts
+                        stubs = {f'self.{c}': (lambda *a, **k: True) for c in CHECKS if c != 'match_subselectors'}
+                        stubs['self.match_tag'] = match_tag
+                        try:
+                            call_function(ctx, fnq, [Obj(_name='el'), lst(alts, outer_html)], {}, stubs, me)
+                            after = (me.get('namespaces'), me.get('iframe_restrict'))
+                            problem = None
+                            if after[0] is not NSMAP or after[1] is not restrict0:
+                                problem = (f'leaves the matcher with namespaces={after[0]!r}, iframe_restrict={after[1]!r}; before the call they '
+                                           f'were the caller\'s map {NSMAP!r} and {restrict0!r}')
+                        except Raised as e:
+                            problem = f'raises {e.exc_name}'
+                        except Unsupported as e:
+                            raise AnalysisError(f'match_selectors: outside the evaluable fragment: {e}')
+                        n += 1
+                        if problem and bad is None:
+                            bad = (doc_html, outer_html, shape, passes, problem)
+    rule.instance({'match_selectors': 'matcher state before = after', 'cases': n}, key='context-restore')
+    rule.obligation(bad is None)
+    if bad is not None:
+        doc_html, outer_html, shape, passes, problem = bad
+        rule.violation('css_match.CSSMatch.match_selectors context restore', mod.where(fn),
+                       f'match_selectors on {"an HTML-only" if outer_html else "an ordinary"} list ({shape}, the compound '
+                       f'{"passes" if passes else "fails"}) in {"an HTML" if doc_html else "a non-HTML"} document {problem}. The same matcher '
+                       f'evaluates the next element of select()/filter()/closest(): it would be evaluated with the wrong namespace map / '
+                       f'iframe policy, so these entry points stop being views of match()')
